@@ -100,6 +100,14 @@ type res struct {
 	// Props as well; StatusLast: the status element comes after them.
 	Both       bool `json:"both,omitempty"`
 	StatusLast bool `json:"status_last,omitempty"`
+	// Cond: the response carries a DAV:error element holding the family's
+	// condition (davErrorTree). CondDesc: it carries a responsedescription as
+	// well, "after" the error element (the order of the DTD) or "before" it.
+	Cond     bool   `json:"cond,omitempty"`
+	CondDesc string `json:"cond_desc,omitempty"`
+	// MoreHrefs: a status-type response about several resources at once
+	// (RFC 4918 section 14.24: href, href*, status): that many hrefs more.
+	MoreHrefs int `json:"more_hrefs,omitempty"`
 }
 
 type docSpec struct {
@@ -233,6 +241,15 @@ func (d *docSpec) resPath(ri int) string {
 	return d.M.Base
 }
 
+// morePath is the path of the k-th additional href of a response.
+func (d *docSpec) morePath(ri, k int) string {
+	p := d.resPath(ri)
+	if strings.HasSuffix(p, "/") {
+		return fmt.Sprintf("%s-also%d/", strings.TrimSuffix(p, "/"), k)
+	}
+	return fmt.Sprintf("%s-also%d", p, k)
+}
+
 // tree renders the neutral description as a multistatus tree.
 func (d *docSpec) tree() *xmltree.Node {
 	ms := &davx.MultiStatus{SyncToken: d.Token}
@@ -243,10 +260,23 @@ func (d *docSpec) tree() *xmltree.Node {
 			href = "http://dav.example" + href
 		}
 		resp := davx.Response{Hrefs: []string{href}}
+		for k := 1; k <= r.MoreHrefs && r.Status != 0 && !r.Both; k++ {
+			h := davx.EscapePath(d.morePath(ri, k))
+			if r.Abs {
+				h = "http://dav.example" + h
+			}
+			resp.Hrefs = append(resp.Hrefs, h)
+		}
 		if r.Status != 0 {
 			resp.Status = &davx.Status{Code: r.Status, Phrase: http.StatusText(r.Status)}
-			if d.Extra && failing(r.Status) {
+			if d.Extra && failing(r.Status) && !r.Cond {
 				resp.Desc = "resource failed"
+			}
+			if r.Cond {
+				resp.Error = davErrorTree(d.M.Fam)
+				if r.CondDesc != "" {
+					resp.Desc = "the resource failed a precondition"
+				}
 			}
 		}
 		if r.Status == 0 || r.Both {
@@ -284,6 +314,20 @@ func (d *docSpec) tree() *xmltree.Node {
 			for ci, ch := range rn.Children {
 				if ch.Kind == xmltree.Element && ch.Space == nsDAV && ch.Local == "status" {
 					rn.Children = append(append(rn.Children[:ci:ci], rn.Children[ci+1:]...), ch)
+					break
+				}
+			}
+		}
+		if ri < len(d.Res) && d.Res[ri].Cond && d.Res[ri].CondDesc == "before" {
+			// the description in front of the error element
+			for ci, ch := range rn.Children {
+				if ch.Kind == xmltree.Element && ch.Space == nsDAV && ch.Local == "error" {
+					for cj := ci + 1; cj < len(rn.Children); cj++ {
+						if dn := rn.Children[cj]; dn.Kind == xmltree.Element && dn.Space == nsDAV && dn.Local == "responsedescription" {
+							rn.Children[ci], rn.Children[cj] = dn, ch
+							break
+						}
+					}
 					break
 				}
 			}
@@ -355,6 +399,15 @@ func decodes(m *minfo, kind, id string) bool {
 	return false
 }
 
+func isNeeded(need []string, id string) bool {
+	for _, x := range need {
+		if x == id {
+			return true
+		}
+	}
+	return false
+}
+
 func (d *docSpec) expect() (exp Expect, class, dkey string) {
 	m := d.M
 	var sbKey strings.Builder
@@ -362,6 +415,13 @@ func (d *docSpec) expect() (exp Expect, class, dkey string) {
 	clean := true
 	var str string
 	var mustErr string // for ms1: the placement that obliges an error
+	// What an error of this call can be about. As long as the only blemishes
+	// of the document are responses reported with a failing status
+	// (otherDirt false), an error is about one of them: it carries that
+	// response's status code (asked for when all of them have the same) and,
+	// when every one of them holds a DAV:error condition, the condition.
+	otherDirt, failCodes, failAllCond, failDesc := false, map[int]bool{}, true, ""
+	var more []Offer // the additional hrefs of status-type responses
 	for ri := range d.Res {
 		r := &d.Res[ri]
 		o := Offer{E: Entry{Path: d.resPath(ri)}, Listed: m.listed(r.Kind)}
@@ -374,12 +434,37 @@ func (d *docSpec) expect() (exp Expect, class, dkey string) {
 		if r.Status != 0 {
 			sbKey.WriteString("s" + codeClass(r.Status))
 			o.RespBad = failing(r.Status)
+			for k := 1; k <= r.MoreHrefs && !r.Both; k++ {
+				sbKey.WriteString("+href")
+				exp.MultiHref = true
+				mo := Offer{E: Entry{Path: d.morePath(ri, k)}, Listed: o.Listed, RespBad: o.RespBad}
+				more = append(more, mo)
+				switch {
+				case m.Kind == "sync" && r.Status == 404:
+					exp.SyncDeleted = append(exp.SyncDeleted, mo.E.Path)
+				case m.Kind == "sync" && o.RespBad:
+					exp.SyncNotDeleted = append(exp.SyncNotDeleted, mo.E.Path)
+				}
+			}
 			if m.Kind == "sync" && r.Status == 404 {
 				exp.SyncDeleted = append(exp.SyncDeleted, o.E.Path)
 			} else {
 				clean = false
 				if m.Kind == "sync" && o.RespBad {
 					exp.SyncNotDeleted = append(exp.SyncNotDeleted, o.E.Path)
+				}
+				if o.RespBad {
+					failCodes[r.Status] = true
+					failAllCond = failAllCond && r.Cond
+					if r.Cond {
+						sbKey.WriteString("+cond")
+						if r.CondDesc != "" {
+							sbKey.WriteString("+desc-" + r.CondDesc)
+						}
+						failDesc = " holding a DAV:error condition"
+					}
+				} else {
+					otherDirt = true
 				}
 			}
 			if o.RespBad && m.Kind == "sync" && r.Own && r.Status != 404 {
@@ -391,6 +476,13 @@ func (d *docSpec) expect() (exp Expect, class, dkey string) {
 			if o.RespBad && m.Kind == "ms1" {
 				mustErr = "response with " + failClass(r.Status) + " status"
 			}
+			if o.RespBad && !r.Own && (m.Kind == "msl" && o.Listed || m.Kind == "sync" && r.Status != 404) {
+				// "a resource reported with a non-success status is surfaced
+				// as an error": leaving the member out of the list silently
+				// is not that. (The collection's own entry, which no list
+				// holds anyway, and kinds the method does not list stay open.)
+				mustErr = "member response with " + failClass(r.Status) + " status"
+			}
 		} else {
 			sbKey.WriteString(r.Kind + ":")
 			need, _ := m.propsFor(r.Kind)
@@ -399,7 +491,7 @@ func (d *docSpec) expect() (exp Expect, class, dkey string) {
 				sbKey.WriteString(p.ID[:2] + p.ID[len(p.ID)-1:] + codeClass(p.Code) + ",")
 				have[p.ID] = true
 				if p.Code != 200 {
-					clean = false
+					clean, otherDirt = false, true
 				}
 				v := valueFor(p.Code, ri, pi)
 				if !failing(p.Code) {
@@ -410,7 +502,12 @@ func (d *docSpec) expect() (exp Expect, class, dkey string) {
 					}
 					if m.Single == p.ID {
 						mustErr = "property under " + failClass(p.Code) + " propstat"
-					} else if p.Code != 404 && m.Single == "" && m.Kind != "sync" && o.Listed && decodes(m, r.Kind, p.ID) {
+					} else if p.Code == 404 && m.Single == "" && o.Listed && isNeeded(need, p.ID) {
+						// ... and a property the result cannot do without is
+						// not an optional one: reported as not found, it is a
+						// failure too, never an object without its data
+						mustErr = "needed property under 404 propstat"
+					} else if p.Code != 404 && m.Single == "" && o.Listed && decodes(m, r.Kind, p.ID) {
 						// "a property reported with a non-success status is
 						// surfaced as an error": 404 says the resource lacks
 						// an optional property (tolerated); any other failing
@@ -424,7 +521,7 @@ func (d *docSpec) expect() (exp Expect, class, dkey string) {
 			}
 			for _, id := range need {
 				if !have[id] {
-					clean = false
+					clean, otherDirt = false, true
 				}
 			}
 		}
@@ -433,8 +530,20 @@ func (d *docSpec) expect() (exp Expect, class, dkey string) {
 		}
 		exp.Offered = append(exp.Offered, o)
 	}
+	exp.Offered = append(exp.Offered, more...)
 	if m.Kind == "ms1" && len(d.Res) != 1 {
-		clean = false
+		clean, otherDirt = false, true
+	}
+	if !otherDirt && len(failCodes) > 0 {
+		if len(failCodes) == 1 {
+			for c := range failCodes {
+				exp.HTTPCode = c
+			}
+		}
+		if failAllCond {
+			sp, lo := condFor(m.Fam)
+			exp.Cond = "{" + sp + "}" + lo
+		}
 	}
 	dkey = sbKey.String()
 	switch {
@@ -459,7 +568,7 @@ func (d *docSpec) expect() (exp Expect, class, dkey string) {
 			if m.Kind == "sync" {
 				out.Entries = nil
 				for ri, o := range exp.Offered {
-					if d.Res[ri].Status == 0 {
+					if ri < len(d.Res) && d.Res[ri].Status == 0 {
 						out.Entries = append(out.Entries, Entry{Path: o.E.Path, Mod: o.E.Mod, ETag: o.E.ETag})
 					}
 				}
@@ -468,9 +577,15 @@ func (d *docSpec) expect() (exp Expect, class, dkey string) {
 		}
 		s := out.sorted()
 		exp.Data = &s
+		if exp.MultiHref {
+			exp.Data = nil // judged href by href (SyncDeleted, Offered): one defect, one key
+		}
 	default:
 		exp.Verdict = "any"
 		class = "207 + multistatus with non-200 statuses"
+		if failDesc != "" && !otherDirt {
+			class = "207 + multistatus: failing response" + failDesc
+		}
 		if m.Single != "" {
 			// 2xx-but-not-200 propstat: error or the value, nothing else
 			exp.StrOneOf = []string{"", str}
